@@ -257,6 +257,9 @@ struct RecGlobal {
     log: Vec<LogItem>,
     /// gate id stamped on the last market item (0 = plain feed)
     gate: i64,
+    /// (exchange index, mock order sequence number, exchange time in ns) of every trade
+    /// processed, in arrival order
+    stamps: Vec<(usize, i64, i64)>,
 }
 
 impl Processor<&MarketEvent<InstrumentIndex, DataKind>> for RecGlobal {
@@ -269,6 +272,13 @@ impl Processor<&MarketEvent<InstrumentIndex, DataKind>> for RecGlobal {
 impl Processor<&AccountEvent> for RecGlobal {
     type Audit = ();
     fn process(&mut self, e: &AccountEvent) {
+        if let AccountEventKind::Trade(t) = &e.kind {
+            self.stamps.push((
+                e.exchange.index(),
+                t.order_id.0.parse::<i64>().unwrap_or(-1),
+                t.time_exchange.timestamp_nanos_opt().unwrap_or(0),
+            ));
+        }
         self.log.push(LogItem::Account(acct_of(e)));
     }
 }
@@ -358,6 +368,9 @@ struct Sink {
     trades: u64,
     balances: u64,
     snapshots: usize,
+    /// the account stream re-synchronised (a further snapshot / a Reconnecting account event)
+    resynced: bool,
+    stamps: Vec<(usize, i64, i64)>,
     connectivity_errors: u64,
     awaiting: bool,
     gate: Option<Arc<Semaphore>>,
@@ -389,6 +402,9 @@ struct Params {
     max_units: u32,
     /// lot size, in 1e-3 units
     lot_milli: i64,
+    /// number of separate buy orders (one lot each) sent for the instrument on a buy tick: more
+    /// orders in flight on one exchange than it has instruments
+    burst: u32,
     /// send an order for this instrument (whose exchange has no execution link) at this count
     fatal: Option<(usize, u64)>,
 }
@@ -411,7 +427,15 @@ struct Strat {
 }
 
 impl Strat {
-    fn decide(&self, inst: usize, d: &RecData) -> Option<(Side, Decimal)> {
+    fn decide(&self, inst: usize, d: &RecData) -> Vec<(Side, Decimal)> {
+        self.decide_one(inst, d)
+            .map(|(side, qty)| {
+                let n = if side == Side::Buy && self.p.fatal.is_none() { self.p.burst.max(1) } else { 1 };
+                vec![(side, qty); n as usize]
+            })
+            .unwrap_or_default()
+    }
+    fn decide_one(&self, inst: usize, d: &RecData) -> Option<(Side, Decimal)> {
         if !d.armed {
             return None;
         }
@@ -478,13 +502,13 @@ impl AlgoStrategy for Strat {
         if sink.snapshots >= self.hold {
             for s in state.instruments.instruments(&InstrumentFilter::None) {
                 let inst = s.key.index();
-                if let Some((side, qty)) = self.decide(inst, &s.data) {
+                for (j, (side, qty)) in self.decide(inst, &s.data).into_iter().enumerate() {
                     opens.push(OrderRequestOpen {
                         key: OrderKey {
                             exchange: s.instrument.exchange,
                             instrument: s.key,
                             strategy: self.id.clone(),
-                            cid: ClientOrderId::new(format!("{}-i{}-n{}", self.id.0, inst, s.data.count)),
+                            cid: ClientOrderId::new(format!("{}-i{}-n{}-{}", self.id.0, inst, s.data.count, j)),
                         },
                         state: RequestOpen {
                             side,
@@ -499,6 +523,9 @@ impl AlgoStrategy for Strat {
         }
         sink.sent += opens.len() as u64;
 
+        if sink.stamps.len() != state.global.stamps.len() {
+            sink.stamps = state.global.stamps.clone();
+        }
         // final state as of this tick (a later terminal tick does not change it)
         sink.final_state = Some(FinalState {
             instruments: state
@@ -522,6 +549,15 @@ impl AlgoStrategy for Strat {
                 .collect(),
         });
 
+        // the account stream of a mocked exchange broke and re-synchronised from a snapshot:
+        // notifications may be lost, pacing can no longer complete; let the run finish (the
+        // oracle rejects it: fills seen != orders accepted)
+        if self.hold > 0 && sink.snapshots > self.hold && !sink.resynced {
+            sink.resynced = true;
+            if let Some(g) = sink.gate.clone() {
+                g.add_permits(1_000_000);
+            }
+        }
         // an execution request timed out (machine overloaded): this run will be repeated, let
         // it finish without pacing
         if sink.connectivity_errors > 0 {
@@ -709,7 +745,7 @@ impl EvSpec {
 
 impl Params {
     fn to_json(&self) -> Value {
-        json!({"k": self.k, "m": self.m, "max": self.max_units, "lot": self.lot_milli,
+        json!({"k": self.k, "m": self.m, "max": self.max_units, "lot": self.lot_milli, "burst": self.burst,
                "fatal": self.fatal.map(|(i, c)| json!([i, c]))})
     }
     fn from_json(v: &Value) -> Params {
@@ -718,6 +754,7 @@ impl Params {
             m: v["m"].as_u64().unwrap_or(1).max(1),
             max_units: v["max"].as_u64().unwrap_or(1) as u32,
             lot_milli: v["lot"].as_i64().unwrap_or(1000),
+            burst: v["burst"].as_u64().unwrap_or(1).clamp(1, 8) as u32,
             fatal: v["fatal"].as_array().and_then(|a| {
                 Some((a.first()?.as_u64()? as usize, a.get(1)?.as_u64()?))
             }),
@@ -1020,6 +1057,14 @@ struct RunObs {
     /// plain feed (the request may be stamped while the engine is already further) = between
     /// the dataset's first time and the latest market time processed when the fill arrived
     clock_ok: bool,
+    /// the mock exchange's clock went backwards between two orders it accepted one after the
+    /// other (order sequence numbers i < j on one exchange, fill time of j earlier than that of
+    /// i): the HistoricalClock it is driven by stepped back
+    clock_regressed: bool,
+    /// paced feed: every order the mock exchange accepted produced exactly one fill and one
+    /// balance update that reached this engine, every order sent got its response, and the
+    /// account stream never had to re-synchronise (plain feed: not judged, the shutdown race)
+    fills_ok: bool,
     /// which backtest's id the summary found at this run's position carries (alone: itself;
     /// 9999 = no backtest of the batch has that id)
     pos_id: usize,
@@ -1034,7 +1079,15 @@ fn canon(v: &Value) -> String {
             let parts: Vec<String> = keys
                 .into_iter()
                 .filter(|k| !(k.starts_with("time") || k.ends_with("_ms") || k.as_str() == "last_update_time"))
-                .map(|k| format!("{k}:{}", canon(&m[k])))
+                .map(|k| match (&m[k], k.as_str()) {
+                    // trade ids of a position: same-tick fills may arrive in either order
+                    (Value::Array(a), "trades") => {
+                        let mut ids: Vec<String> = a.iter().map(canon).collect();
+                        ids.sort();
+                        format!("{k}:[{}]", ids.join(","))
+                    }
+                    (v, _) => format!("{k}:{}", canon(v)),
+                })
                 .collect();
             format!("{{{}}}", parts.join(","))
         }
@@ -1044,13 +1097,22 @@ fn canon(v: &Value) -> String {
 }
 
 fn fingerprints(fs: &FinalState, log: &[LogItem]) -> (String, String, u64) {
-    let fills: Vec<&str> = log
-        .iter()
-        .filter_map(|l| match l {
-            LogItem::Account(a) if a.kind == 6 => Some(a.detail.as_str()),
-            _ => None,
-        })
-        .collect();
+    // fills in arrival order, except that the fills arriving between two market events (several
+    // orders sent on one tick: their notification tasks race) are sorted
+    let mut fills: Vec<&str> = vec![];
+    let mut seg: Vec<&str> = vec![];
+    for l in log {
+        match l {
+            LogItem::Account(a) if a.kind == 6 => seg.push(a.detail.as_str()),
+            LogItem::Market(_) | LogItem::Reconnecting(_) => {
+                seg.sort();
+                fills.append(&mut seg);
+            }
+            _ => {}
+        }
+    }
+    seg.sort();
+    fills.append(&mut seg);
     let mut st = String::new();
     for i in &fs.instruments {
         let mut orders: Vec<String> = i
@@ -1240,6 +1302,17 @@ fn observe(
         connectivity_errors: sink.connectivity_errors,
         note,
         clock_ok: fills_use_own_clock(sc, &sink.log),
+        clock_regressed: {
+            let mut st = sink.stamps.clone();
+            st.sort();
+            st.windows(2).any(|w| w[0].0 == w[1].0 && w[0].1 < w[1].1 && w[1].2 < w[0].2)
+        },
+        fills_ok: !sc.paced
+            || outcome != 0
+            || (!sink.resynced
+                && sink.sent == sink.resp_ok + sink.resp_err
+                && sink.trades == sink.resp_ok
+                && sink.balances == sink.resp_ok),
         pos_id: match summary {
             None => bt,
             Some(sum) if sum.id == sc.id_of(bt) => bt,
@@ -1268,15 +1341,22 @@ fn run_batch<MD>(sc: &Scenario, prep: &Prepared<MD>, bts: &[usize], workers: usi
 where
     MD: BacktestMarketData<Kind = DataKind> + Send + Sync + 'static,
 {
-    let rt = tokio::runtime::Builder::new_multi_thread()
-        .worker_threads(if workers == 0 { 2 } else { workers })
-        .enable_all()
-        .build()
-        .expect("runtime");
+    // workers: 0 alone (2 worker threads), 1000 alone on a current_thread runtime, 99 batch on
+    // a current_thread runtime (every task of every backtest polled by one thread, in turn),
+    // otherwise a batch on that many worker threads
+    let rt = if workers == 99 || workers == 1000 {
+        tokio::runtime::Builder::new_current_thread().enable_all().build().expect("runtime")
+    } else {
+        tokio::runtime::Builder::new_multi_thread()
+            .worker_threads(if workers == 0 { 2 } else { workers })
+            .enable_all()
+            .build()
+            .expect("runtime")
+    };
     let (dyns, sinks): (Vec<_>, Vec<_>) = bts.iter().map(|&bt| make_dynamic(sc, prep, bt)).unzip();
     let args = Arc::clone(&prep.args);
     let mut out = vec![];
-    if workers == 0 {
+    if workers == 0 || workers == 1000 {
         let bt = bts[0];
         let d = dyns.into_iter().next().unwrap();
         let res = rt.block_on(async move {
@@ -1293,7 +1373,7 @@ where
             Ok(Ok(Err(e))) => (1, format!("{e:?}").chars().take(200).collect(), None),
             Ok(Ok(Ok(s))) => (0, String::new(), Some(s)),
         };
-        out.push(observe(sc, bt, 0, outcome, note, sum.as_ref(), &sinks[0]));
+        out.push(observe(sc, bt, workers, outcome, note, sum.as_ref(), &sinks[0]));
     } else {
         let res = rt.block_on(async move {
             tokio::time::timeout(run_timeout(), AssertUnwindSafe(run_backtests(args, dyns)).catch_unwind()).await
@@ -1369,8 +1449,13 @@ where
     for bt in 0..n {
         runs.extend(retry(&|| run_batch(sc, prep, &[bt], 0)));
     }
+    if sc.workers.contains(&1000) {
+        for bt in 0..n {
+            runs.extend(retry(&|| run_batch(sc, prep, &[bt], 1000)));
+        }
+    }
     let all: Vec<usize> = (0..n).collect();
-    for &w in &sc.workers {
+    for &w in sc.workers.iter().filter(|w| **w != 1000) {
         runs.extend(retry(&|| run_batch(sc, prep, &all, w)));
     }
     runs
@@ -1471,6 +1556,17 @@ fn render(sc: &Scenario, keys: &[String], runs: &[RunObs], intact: bool) -> (Str
         if !r.clock_ok {
             tag("fill_time_not_from_own_clock");
         }
+        if r.clock_regressed {
+            tag("mock_exchange_clock_regressed");
+        }
+        if !r.fills_ok {
+            tag("accepted_order_without_fill_or_account_resync");
+        }
+        match r.workers {
+            99 => tag("batch_on_current_thread_runtime"),
+            1000 => tag("alone_on_current_thread_runtime"),
+            _ => {}
+        }
         if r.pnl != Decimal::ZERO {
             tag("realised_pnl");
         }
@@ -1483,7 +1579,7 @@ fn render(sc: &Scenario, keys: &[String], runs: &[RunObs], intact: bool) -> (Str
         });
         let fp = fnv(&format!("{}##{}##{}", r.fp_fills, r.fp_state, r.fp_summary));
         run_terms.push(format!(
-            "(mkRun {} {} {} {} {} {} {} {} {} {})",
+            "(mkRun {} {} {} {} {} {} {} {} {} {} {} {})",
             n(r.bt as u128),
             n(r.workers as u128),
             n(r.pos_id as u128),
@@ -1493,7 +1589,9 @@ fn render(sc: &Scenario, keys: &[String], runs: &[RunObs], intact: bool) -> (Str
             n(r.n_fills as u128),
             dec_z(r.pnl.round_dp(12), 12),
             b(r.sum_ok),
-            b(r.clock_ok)
+            b(r.clock_ok),
+            b(r.fills_ok),
+            b(r.clock_regressed)
         ));
     }
     let fatal = sc.params.first().and_then(|p| sc.fatal_position(p));
@@ -1586,6 +1684,8 @@ fn emit(em: &mut Emitter, stream: &'static str, sc: &Scenario) {
                 sum_ok: false,
                 connectivity_errors: 0,
                 clock_ok: true,
+                clock_regressed: false,
+                fills_ok: true,
                 pos_id: 0,
                 note: format!("harness-level panic: {msg}"),
             };
@@ -1608,8 +1708,8 @@ fn emit(em: &mut Emitter, stream: &'static str, sc: &Scenario) {
     if std::env::var("C20_DEBUG").is_ok() {
         for r in &runs {
             eprintln!(
-                "bt{} w{} out{} fills{} pnl{} sum_ok{} conn{} note[{}]\n   fills: {}\n   state: {}\n   summ: {}",
-                r.bt, r.workers, r.outcome, r.n_fills, r.pnl, r.sum_ok, r.connectivity_errors, r.note,
+                "bt{} w{} regress{} out{} fills{} pnl{} sum_ok{} conn{} note[{}]\n   fills: {}\n   state: {}\n   summ: {}",
+                r.bt, r.workers, r.clock_regressed, r.outcome, r.n_fills, r.pnl, r.sum_ok, r.connectivity_errors, r.note,
                 r.fp_fills, r.fp_state, r.fp_summary
             );
         }
@@ -1714,6 +1814,7 @@ fn gen_params(r: &mut Rng, nbt: usize) -> Vec<Params> {
             m: 2 + (i as u64 % 4) + r.below(3),
             max_units: 1 + r.below(3) as u32,
             lot_milli: *r.pick(&[1000i64, 500, 250, 2000, 125]),
+            burst: *r.pick(&[1u32, 1, 1, 1, 2, 3]),
             fatal: None,
         })
         .collect()
@@ -1739,8 +1840,55 @@ fn gen_scenario(r: &mut Rng, paced: bool, max_ev: usize, max_bt: usize, adversar
         base_balance: if poor { 20 } else { 1_000 },
         events: gen_events(r, n, if topo == 2 { 5 } else { 2 }, adversarial),
         params,
-        workers: vec![1, 2, 8],
+        workers: if r.chance(1, 3) { vec![1000, 99, 2, 8] } else { vec![1, 2, 8] },
         ids: *r.pick(&[0u8, 0, 1, 1, 2, 3, 4, 5]),
+    }
+}
+
+/// strategies that send several orders for one instrument on a single tick (2, 3 or 5), often on
+/// consecutive ticks: more fills in flight on a mocked exchange than it has instruments. Paced
+/// feed (fills are deterministic), alone and in batches, on current_thread runtimes (one thread
+/// polls every task in turn: the notification tasks of a burst run back to back before the
+/// account forwarder is polled) and multi_thread runtimes. Every accepted order's fill and
+/// balance update must reach the engine.
+fn gen_burst(r: &mut Rng, i: usize) -> Scenario {
+    let topo = if i % 4 == 3 { 2 } else { 0 };
+    let insts = if topo == 2 { 5 } else { 2 };
+    let n = 4 + r.below(10) as usize;
+    let nbt = 1 + r.below(6) as usize;
+    let mut events = gen_events(r, n, insts, false);
+    // concentrate the data on few instruments so that bursts land on consecutive ticks
+    for e in events.iter_mut() {
+        if let EvSpec::Trade { inst, .. } | EvSpec::L1 { inst, .. } | EvSpec::Other { inst, .. } = e {
+            if r.chance(2, 3) {
+                *inst = if topo == 2 { 3 } else { 0 };
+            }
+        }
+    }
+    let params = (0..nbt)
+        .map(|b| {
+            let burst = [2u32, 3, 5][(i + b) % 3];
+            Params {
+                k: 1 + r.below(2),
+                m: 3 + r.below(3),
+                max_units: burst * (1 + r.below(3) as u32),
+                lot_milli: *r.pick(&[1000i64, 500, 250]),
+                burst,
+                fatal: None,
+            }
+        })
+        .collect();
+    Scenario {
+        paced: i % 5 != 4,
+        topo,
+        latency_ms: *r.pick(&[0u64, 0, 1]),
+        fee_bp: 10,
+        quote_balance: 1_000_000,
+        base_balance: 1_000,
+        events,
+        params,
+        workers: vec![1000, 99, *r.pick(&[1usize, 2]), 8],
+        ids: *r.pick(&[0u8, 1, 2]),
     }
 }
 
@@ -1841,7 +1989,7 @@ fn boundary_lengths(em: &mut Emitter, thorough: bool) {
         base_balance: 1_000,
         events: mk(len),
         params: (0..nbt)
-            .map(|i| Params { k: 5 + 2 * i as u64, m: 7 + 4 * i as u64, max_units: 1 + i as u32, lot_milli: 1000, fatal: None })
+            .map(|i| Params { k: 5 + 2 * i as u64, m: 7 + 4 * i as u64, max_units: 1 + i as u32, lot_milli: 1000, burst: 1, fatal: None })
             .collect(),
         workers,
         ids: 1,
@@ -1897,7 +2045,7 @@ fn table(em: &mut Emitter) {
         base_balance: 1_000,
         events,
         params: (0..nbt)
-            .map(|i| Params { k: 1 + i as u64, m: 2 + i as u64, max_units: 1 + i as u32, lot_milli: 1000, fatal: None })
+            .map(|i| Params { k: 1 + i as u64, m: 2 + i as u64, max_units: 1 + i as u32, lot_milli: 1000, burst: 1, fatal: None })
             .collect(),
         workers: vec![1, 2],
         ids: 0,
@@ -1964,6 +2112,25 @@ fn table(em: &mut Emitter) {
         ];
         emit(em, "table", &base(paced, events, 2));
     }
+    // bursts: 2, 3 and 5 orders for one instrument on one tick, on consecutive ticks; alone and in
+    // a batch, on current_thread and multi_thread runtimes; also on the second mock (Okx: one
+    // instrument on that exchange)
+    for burst in [2u32, 3, 5] {
+        for topo in [0u8, 2] {
+            let pat: Vec<u8> = if topo == 2 { vec![12, 12, 0, 12, 12, 12, 0] } else { vec![0, 0, 0, 1, 0, 0] };
+            let mut sc = base(true, mk(&pat), 3);
+            sc.topo = topo;
+            for (i, p) in sc.params.iter_mut().enumerate() {
+                p.k = 1;
+                p.m = 4 + i as u64;
+                p.burst = burst;
+                p.max_units = burst * (2 + i as u32);
+                p.lot_milli = [1000i64, 500, 250][i % 3];
+            }
+            sc.workers = vec![1000, 99, 2, 8];
+            emit(em, "table", &sc);
+        }
+    }
     // twins: backtests 2k and 2k+1 share id, parameters and risk-free rate
     for paced in [false, true] {
         let mut sc = base(paced, mk(&[0, 0, 1, 0, 0]), 6);
@@ -2019,6 +2186,7 @@ fn main() {
             let mut r = Rng::new(args.seed);
             let thorough = args.tier == "thorough";
             let n_big = if thorough { 30 } else { 10 };
+            let n_burst = if thorough { 80 } else { 24 };
             let (n_paced, n_plain, n_adv, n_fatal, max_ev, max_bt) =
                 if thorough { (160, 60, 80, 40, 60, 32) } else { (60, 20, 30, 12, 24, 8) };
             table(&mut em);
@@ -2034,6 +2202,10 @@ fn main() {
             for i in 0..n_adv {
                 let sc = gen_scenario(&mut r, i % 2 == 0, max_ev, max_bt.min(4), true);
                 emit(&mut em, "adversarial", &sc);
+            }
+            for i in 0..n_burst {
+                let sc = gen_burst(&mut r, i);
+                emit(&mut em, "random", &sc);
             }
             for i in 0..n_big {
                 let sc = gen_big_batch(&mut r, i % 3 != 2, [1u8, 2, 1, 3, 1, 4, 0][i % 7]);
